@@ -124,7 +124,7 @@ class GenerateSnapshots(Contract):
             return self.forbid(ctx, 'C09.rows.no_exception.%s' % outcome[1], tags=T, note=outcome[2])
         gh = getattr(outcome[1], 'ghost', None)
         if gh is None or '$yrow' not in gh or outcome[1].items:
-            return self.forbid(ctx, 'C09.rows.yields_rows', tags=T)
+            return self.shape(ctx, 'C09.rows.yields_rows', tags=T)
         Y = gh['$yrow'].z
         a, b, q = c.qa, c.qb, c.qq
         listed = self.flat_member(ctx, c, a, b)
@@ -192,7 +192,7 @@ class GenerateInteractions(Contract):
             return self.forbid(ctx, 'C10.rows.no_exception.%s' % outcome[1], tags=T, note=outcome[2])
         gh = getattr(outcome[1], 'ghost', None)
         if gh is None or '$yseq' not in gh or outcome[1].items:
-            return self.forbid(ctx, 'C10.rows.yields_rows', tags=T)
+            return self.shape(ctx, 'C10.rows.yields_rows', tags=T)
         seq = getattr(ctx, 'gi_seq', None)
         ys, n = gh['$yseq'].z, gh['$ylen'].z
         if seq is None:
@@ -265,11 +265,11 @@ class NodeLinkData(GenerateSnapshots):
             return self.forbid(ctx, 'C11.data.no_exception.%s' % outcome[1], tags=T, note=outcome[2])
         r = outcome[1]
         if r.kind != 'dict':
-            return self.forbid(ctx, 'C11.data.returns_a_dict', tags=T)
+            return self.shape(ctx, 'C11.data.returns_a_dict', tags=T)
         slots = {k.s: v for k, v in r.pairs if k.kind == 'str'}
         for need in ('directed', 'nodes', 'links', 'graph'):
             if need not in slots:
-                return self.forbid(ctx, 'C11.data.has_key_%s' % need, tags=T)
+                return self.shape(ctx, 'C11.data.has_key_%s' % need, tags=T)
         d = slots['directed']
         ctx.oblige('C11.data.records_directedness', (d.z == z3.BoolVal(self.directed)) if d.kind == 'bool' else z3.BoolVal(False), tags=T)
         nd = slots['nodes']
